@@ -218,6 +218,9 @@ pub fn required_probes(prop: &str) -> Vec<&'static str> {
             "rule.P4.evaluated",
             "rule.P5.evaluated",
             "probe.launch_with_environment",
+            "probe.parser_owns_a_value_with_a_destructor",
+            "probe.launch_with_a_terminal_on_one_stream",
+            "real.tty_child",
             "rule.T7.evaluated",
             "real.spawned",
             "real.variant_plain",
